@@ -141,7 +141,7 @@ Qed.
 
 Lemma micro_118 s t x cl d ne c r K ob : gett s t = Some x -> frames x = FKid118 cl d ne c r :: K -> geto s (fst cl) = Some ob ->
   micro s t [] = Some (sett s t (with_frames x (FKid119 cl (oword ob)
-                          (with_epoch (sub_strong (oword ob) 1) (wrap 64 (merged c ne (snd cl) (epoch (oword ob))))) d ne c r :: K)),
+                          (with_epoch (sub_strong (oword ob) 1) (wrap 64 (child_stamp c ne (snd cl) (epoch (oword ob))))) d ne c r :: K)),
                        [118; zo (fst cl); snd cl; 1018; zo (fst cl); oword ob]).
 Proof. intros Hg Hf Ho; unfold micro; rewrite Hg, Hf, Ho; reflexivity. Qed.
 
@@ -209,6 +209,17 @@ Proof.
   { unfold decode, RECLAIM_AGE, epoch_ok in *. lia. }
   split; [exact Rm|split; [exact Lm|]].
   rewrite reclaim_now_threshold by assumption. apply Z.leb_le. rewrite HD. lia.
+Qed.
+
+(* the stamp the repaired code writes (the maximum, clamped one epoch ahead: finding D13) is the maximum itself
+   when the three inputs are old *)
+Lemma old_child_stamp g a1 a2 a3 : epoch_ok g -> old g a1 -> old g a2 -> old g a3 -> old g (child_stamp g a1 a2 a3 mod 16).
+Proof.
+  intros Hg O1 O2 O3. pose proof (old_merged g a1 a2 a3 Hg O1 O2 O3) as (Rm & Lm & Om).
+  destruct O1 as (R1 & L1 & _), O2 as (R2 & L2 & _), O3 as (R3 & L3 & _).
+  rewrite child_stamp_of_old; try assumption; try reflexivity.
+  - split; [exact Rm | split; [exact Lm | exact Om]].
+  - rewrite reclaim_now_threshold in Om by assumption. apply Z.leb_le in Om. unfold RECLAIM_AGE in Om. lia.
 Qed.
 
 (* ---- the footprint of a run of thread t: only the frames of t and the objects of L change *)
@@ -305,7 +316,7 @@ Proof.
     + split; [apply upd_seto|]. geto_tac.
 Qed.
 
-Definition dec_word (g ne ts wc : Z) : Z := with_epoch (sub_strong wc 1) (wrap 64 (merged g ne ts (epoch wc))).
+Definition dec_word (g ne ts wc : Z) : Z := with_epoch (sub_strong wc 1) (wrap 64 (child_stamp g ne ts (epoch wc))).
 
 Lemma child_dec s t x b ts d ne c r K ob :
   gett s t = Some x -> frames x = FKids d ne c ((b, ts) :: r) :: K -> b <> O ->
@@ -316,7 +327,7 @@ Lemma child_dec s t x b ts d ne c r K ob :
     geto s1 b = Some (with_word ob (dec_word (G s) ne ts (oword ob))).
 Proof.
   intros Hg Hf Hb Ho Hw Hs. destruct b as [|b']; [congruence|].
-  destruct (dec_fields (oword ob) (merged (G s) ne ts (epoch (oword ob))) Hw Hs) as (_ & Hs' & _).
+  destruct (dec_fields (oword ob) (child_stamp (G s) ne ts (epoch (oword ob))) Hw Hs) as (_ & Hs' & _).
   fold (dec_word (G s) ne ts (oword ob)) in Hs'.
   eexists. split.
   - eapply run_step. { eapply micro_kids_child; [gett_tac|frames_tac]. } norm.
@@ -361,10 +372,10 @@ Lemma head_ok_dec g ne ts ob d : epoch_ok g -> 0 <= d -> old g ne -> old g ts ->
   head_ok g (d + 1) (dec_word g ne ts (oword ob)).
 Proof.
   intros Hg Hd Hne Hts (Hw & Hs & Hwk & Ho).
-  destruct (dec_fields (oword ob) (merged g ne ts (epoch (oword ob))) Hw ltac:(lia)) as (A1 & A2 & A3 & A4 & A5).
+  destruct (dec_fields (oword ob) (child_stamp g ne ts (epoch (oword ob))) Hw ltac:(lia)) as (A1 & A2 & A3 & A4 & A5).
   fold (dec_word g ne ts (oword ob)) in A1, A2, A3, A4, A5.
   split; [exact A1|]. split; [congruence|]. split.
-  - rewrite A5. apply old_merged; assumption.
+  - rewrite A5. apply old_child_stamp; assumption.
   - right. split; lia.
 Qed.
 
@@ -580,7 +591,7 @@ Proof.
     - eapply upd_trans with (L1 := [h]) (L2 := []); [exact Hu2|exact Hu3|apply incl_refl|intros o []].
     - intros o Hi. change (a :: pre ++ [h]) with ((a :: pre) ++ [h]). apply in_or_app. left. exact Hi.
     - intros o Hi. change (a :: pre ++ [h]) with ((a :: pre) ++ [h]). apply in_or_app. right. exact Hi. }
-  destruct (dec_fields (oword oh) (merged (G s) ne ts (epoch (oword oh))) Hwh ltac:(lia)) as (A1 & A2 & A3 & A4 & A5).
+  destruct (dec_fields (oword oh) (child_stamp (G s) ne ts (epoch (oword oh))) Hwh ltac:(lia)) as (A1 & A2 & A3 & A4 & A5).
   fold (dec_word (G s) ne ts (oword oh)) in A1, A2, A3, A4, A5.
   exists (n1 + 3 + 2 * length (f :: U))%nat, s3, (dec_word (G s) ne ts (oword oh)).
   split; [cbn [length]; lia|]. split.
@@ -591,7 +602,7 @@ Proof.
     intros [<-|[]]. contradiction. }
   split. { rewrite (u_objs _ _ _ _ _ _ Hu3) by (intros []). exact Hh2. }
   split; [exact A1|]. split; [exact A2|]. split; [exact A4|]. split; [exact A3|].
-  split. { intros Hoe. rewrite A5. apply old_merged; assumption. }
+  split. { intros Hoe. rewrite A5. apply old_child_stamp; assumption. }
   split; [apply (u_pending _ _ _ _ _ _ Hu)|apply upd_footprint; assumption].
 Qed.
 
@@ -685,7 +696,7 @@ Proof.
   { unfold s3. eapply gett_sett_same. change (gett (defer s2 KDestruct h) t) with (gett s2 t). exact Hg2. }
   assert (HU' : Forall unwind (f :: U)) by (constructor; [do 3 eexists; reflexivity|exact HU]).
   destruct (up t (f :: U) s3 _ K Hg3 eq_refl HU') as (s4 & Hrun4 & Hu4).
-  destruct (dec_fields (oword oh) (merged (G s) ne ts (epoch (oword oh))) Hwh ltac:(lia)) as (A1 & A2 & A3 & A4 & A5).
+  destruct (dec_fields (oword oh) (child_stamp (G s) ne ts (epoch (oword oh))) Hwh ltac:(lia)) as (A1 & A2 & A3 & A4 & A5).
   fold (dec_word (G s) ne ts (oword oh)) in A1, A2, A3, A4, A5.
   assert (Hobj : forall o, geto s4 o = geto s2 o).
   { intros o. rewrite (u_objs _ _ _ _ _ _ Hu4) by (intros []). reflexivity. }
@@ -697,7 +708,7 @@ Proof.
     rewrite Hobj. rewrite (u_objs _ _ _ _ _ _ Hu2); [exact Hob|]. intros [<-|[]]. contradiction. }
   split. { rewrite Hobj. exact Hh2. }
   split; [exact A1|]. split; [lia|]. split; [exact A4|]. split; [exact A3|].
-  split. { intros Hoe. rewrite A5. apply old_merged; assumption. }
+  split. { intros Hoe. rewrite A5. apply old_child_stamp; assumption. }
   split.
   { rewrite (u_pending _ _ _ _ _ _ Hu4). unfold s3, defer. cbn [pending sett set_pending].
     rewrite (u_pending _ _ _ _ _ _ Hu12), (u_G _ _ _ _ _ _ Hu12), (upd_witnesses _ _ _ _ _ _ Hg Hu12). reflexivity. }
